@@ -121,7 +121,10 @@ fn random_case(s: &str) -> String {
 pub async fn scenario() {
 	let entry = *rt::pick("entry", &[Entry::Tower, Entry::Tower, Entry::LowLevel]);
 	let frag = if rt::chance("frag", 1, 2) { Frag { short: true, latency_ms: 3, cap: 0 } } else { Frag::default() };
-	let mut world = World::new(SrvCfg { entry, frag, ..Default::default() });
+	// in some runs the request limit equals the size of the bodies that are sent (exactly at the limit is accepted,
+	// whatever the framing)
+	let exact_limit: Option<usize> = if rt::chance("exact_limit", 1, 5) { Some(150) } else { None };
+	let mut world = World::new(SrvCfg { entry, frag, max_req: exact_limit.map(|l| l as u32).unwrap_or(10 * 1024 * 1024), ..Default::default() });
 	let n_reqs = rt::draw_range("n_reqs", 1, 4);
 	let over_stream = rt::chance("over_stream", 1, 3);
 	rt::event("plan", format!("entry={entry:?} frag={frag:?} reqs={n_reqs} over_stream={over_stream}"));
@@ -168,6 +171,15 @@ pub async fn scenario() {
 			3 => lead.clone(),
 			4 => format!("{lead}{{\"jsonrpc\":\"2.0\",\"id\":\"a\",\"method\":\"nope\"}}  \n"),
 			_ => format!("{lead}{{\"jsonrpc\":\"2.0\",\"id\":{nonce},\"method\":\"echo\",\"params\":[{nonce},\"  [x]  \"]}}"),
+		};
+		let payload = match exact_limit {
+			Some(l) => {
+				// a call padded to exactly the limit (or one byte less)
+				let l = l - rt::draw("below", 2) as usize;
+				let base = format!("{lead}{{\"jsonrpc\":\"2.0\",\"id\":{nonce},\"method\":\"echo\",\"params\":[\"\"]}}");
+				format!("{lead}{{\"jsonrpc\":\"2.0\",\"id\":{nonce},\"method\":\"echo\",\"params\":[\"{}\"]}}", "p".repeat(l.saturating_sub(base.len())))
+			}
+			None => payload,
 		};
 		let body = payload.into_bytes();
 		let frames = split_body(&body);
